@@ -379,3 +379,35 @@ def recorded_key_is_stored_key(relpath, qualname, record_var, container, prop, c
                     function=fi.describe(), model=why)
     return dict(name=name, status="discharged", backend="frame(ast)", time_s=time.time() - t0, property_level=False,
                 reason=f"every access to `{container}` uses the key recorded in `{record_var}` ({sorted(keys)})", function=fi.describe())
+
+
+def calls_inside_loop(relpath, qualname, callee, loop_ordinal, prop, clause):
+    """Obligation (per-iteration effect): every call of `callee` in the function lies inside loop number `loop_ordinal`
+    (source order) — e.g. every detection happens once per potential configuration, never once for all of them."""
+    t0 = time.time()
+    name = f"{prop}/{qualname}/{clause}"
+    try:
+        fi = extract.load_module(relpath).function(qualname)
+    except extract.ExtractError as e:
+        return dict(name=name, status="undecided", reason=str(e), property_level=False, backend="frame")
+    loops = _loops(fi.node)
+    if loop_ordinal >= len(loops):
+        return dict(name=name, status="undecided", reason=f"loop #{loop_ordinal} not found", property_level=False, backend="frame(ast)")
+    lp = loops[loop_ordinal]
+    inside = {id(n) for n in ast.walk(lp)}
+
+    def is_call(n):
+        return isinstance(n, ast.Call) and ((isinstance(n.func, ast.Name) and n.func.id == callee)
+                                            or (isinstance(n.func, ast.Attribute) and n.func.attr == callee))
+
+    calls = [n for n in ast.walk(fi.node) if is_call(n)]
+    outside = [n.lineno for n in calls if id(n) not in inside]
+    if not calls:
+        return dict(name=name, status="undecided", reason=f"no call of {callee} found", property_level=False, backend="frame(ast)",
+                    function=fi.describe())
+    if outside:
+        why = f"call(s) of {callee} outside the loop at line(s) {outside} (loop starts at line {lp.lineno})"
+        return dict(name=name, status="refuted", backend="frame(ast)", time_s=time.time() - t0, reason=why, property_level=False,
+                    function=fi.describe(), model=why)
+    return dict(name=name, status="discharged", backend="frame(ast)", time_s=time.time() - t0, property_level=False,
+                reason=f"all {len(calls)} calls of {callee} are inside the loop starting at line {lp.lineno}", function=fi.describe())
